@@ -3,6 +3,7 @@ import Driver.L1
 import Driver.L2
 import Driver.L3
 import Driver.L4
+import Driver.L5
 open Clap.Driver
 
 def dispatch (line : String) : String :=
@@ -22,6 +23,9 @@ def dispatch (line : String) : String :=
     | some r => r
     | none =>
     match handleL4 cmd args with
+    | some r => r
+    | none =>
+    match handleL5 cmd args with
     | some r => r
     | none => "bad-op"
 
